@@ -154,7 +154,9 @@ func runC16x(c c16Case, info *c16Info) *vstat.Failure {
 			appendData(sb.String())
 		case "frag":
 			seq++
-			appendData(fmt.Sprintf("F%d", seq))
+			// fragments of very different lengths (the data after a truncation may be
+			// shorter or longer than the fragment flushed before it)
+			appendData(fmt.Sprintf("F%d%s", seq, strings.Repeat("_", (st.N%4)*(st.N%4)*6)))
 		case "complete":
 			seq++
 			appendData(fmt.Sprintf("-c%d\n", seq))
@@ -299,6 +301,7 @@ func TestC16(t *testing.T) {
 			for i := 0; i < n; i++ {
 				c.Steps = append(c.Steps, c16Step{Op: rapid.SampledFrom(ops).Draw(rt, "op"), N: rapid.IntRange(0, 5).Draw(rt, "n")})
 			}
+			st.SkipShrink(rt, c)
 			f, info := runC16(c)
 			st.Eval()
 			for _, s := range c.Steps {
